@@ -26,7 +26,8 @@ register('C06', level='other', sidecars=BASE + ['net_bounded', 'net_ops_bounded'
          explanation='bounded: port impedance of series/parallel ladders (symmetry, reference independence, identical nodes, element impedance), open-circuit voltage on T1')
 register('C07', level='proof', sidecars=BASE + ['components', 'periodic', 'transformers', 'net_ops_bounded', 'seq_circuit'], trusted=NUM,
          explanation='one contract per translator and constructor, dispatch table contract')
-register('C08', level='proof', sidecars=['periodic'], trusted=NUM,
+from . import fourier_lemma
+register('C08', level='proof', sidecars=['periodic'], trusted=NUM + ['sympy'], extras=[fourier_lemma.obligations],
          explanation='closed forms, a/b/c forms, lookup, time functions on open pieces')
 register('C16', level='other', sidecars=BASE + ['net_ops_bounded', 'seq_network'], trusted=NET,
          explanation='bounded: short-circuit contraction (single, chains in both listing orders, star, parallel + reference, exempted), open removal, element removal, '
